@@ -149,6 +149,14 @@ def check(run: Run) -> None:
     rt = strip_sites(fg.return_term())
     ok = rt[0] == "app" and rt[1] == ("global", "inspect.getclosurevars") and rt[2] == (("param", gc.pos_params[0]),)
     run.check(ok, "C04.R3", gc, gc.node, "global_getclosurevars returns inspect.getclosurevars(f) (a snapshot)", f"global_getclosurevars returns {show(rt)[:100]}")
+    ups = [c for c in calls_in(gc) if isinstance(c.func, ast.Attribute) and c.func.attr == "update" and c.args]
+    ok_g = False
+    for c in ups:
+        tgt = strip_sites(fg.term_of(c.func.value))
+        src_ = strip_sites(fg.term_of(c.args[0]))
+        if tgt == ("attr", rt, "globals") and src_ == ("attr", ("param", gc.pos_params[0]), "__globals__"):
+            ok_g = True
+    run.check(ok_g, "C04.R3", gc, gc.node, "the snapshot's globals are completed with all of f.__globals__", "the closure snapshot is not completed with *all* module globals of the callable (inspect.getclosurevars only reports names used directly by f): a global referenced only inside a nested lambda, at any depth, is neither frozen nor checked", "cv.globals.update(f.__globals__)")
 
     # ---------------- R4, R5 (shared with C13.R3)
     from .c13 import _check_gate
